@@ -46,7 +46,7 @@ ASSUMPTIONS = [
     "CPython 3.12 asyncio FIFO ready queue; one step = one `await asyncio.sleep(0)` of the driver",
     "the 20-line sequential model in this file and the history invariants are the specification",
 ]
-MINIMUMS = {"handoff_while_pending": 100, "cancel_after_handoff": 10, "monitor:model": 1000, "monitor:drain": 1000, "long_backlog_drains": 60, "finished_with_falsy_exception": 200, "bulk_backlogs_drained": 6, "producer_between_loop_runs": 7, "consumers_with_a_swallowed_cancellation": 4}
+MINIMUMS = {"handoff_while_pending": 100, "cancel_after_handoff": 10, "monitor:model": 1000, "monitor:drain": 1000, "long_backlog_drains": 60, "finished_with_falsy_exception": 200, "bulk_backlogs_drained": 6, "producer_between_loop_runs": 7, "consumers_with_a_swallowed_cancellation": 4, "queues_cancelled_by_code_handling_another_exception": 100}
 JOBS = {"quick": 4, "thorough": 16}
 
 OPS = ("E1", "E3", "F", "FX", "C", "R", "X", "S")
@@ -101,6 +101,7 @@ class _Run:
         self.handoff_while_pending = False
         self.cancel_after_handoff = False
         self.falsy_reason = False
+        self.cancelled_from_a_handler = False
         self.events: list[str] = []
         self.steps_since_recv = 0  # loop steps since the current receive was started
         self.handed_at: int | None = None  # steps_since_recv when an element/reason was handed to it
@@ -208,7 +209,24 @@ class _Run:
                 kind = "exc"
                 self.q.finish(r)
             else:
-                self.q.cancel()
+                if len(self.events) % 2:
+                    # the queue is cancelled by code that is handling a failure of its own (`except ProducerFailure: queue.cancel(); raise`)
+                    # or unwinding from one (`finally:`): the queue ends cancelled all the same
+                    self.cancelled_from_a_handler = True
+                    try:
+                        raise Boom(len(self.events))
+                    except Boom:
+                        if len(self.events) % 4 == 1:
+                            self.q.cancel()
+                        else:
+                            try:
+                                raise KeyError("lookup inside the handler")
+                            except KeyError:
+                                pass
+                            finally:
+                                self.q.cancel()
+                else:
+                    self.q.cancel()
                 r, kind = None, "cancel"
             if first:
                 self.reason, self.reason_kind = (r if kind == "exc" else kind), kind
@@ -345,6 +363,8 @@ def judge(R: Recorder, run: _Run, mode: str, initial: int, seq: tuple[str, ...],
         R.count("cancel_after_handoff")
     if run.falsy_reason and run.reason_kind == "exc" and not run.reason:
         R.count("finished_with_falsy_exception")
+    if run.cancelled_from_a_handler and run.reason_kind == "cancel":
+        R.count("queues_cancelled_by_code_handling_another_exception")
     if initial >= 17:
         R.count("long_backlog_drains")
     R.count("receives_completed", len(run.recv_log))
